@@ -37,3 +37,14 @@ Theorem C08_inserted_expansions_routable :
     rsearch chk r' p <> None.
 Proof. exact reach_insert_matched. Qed.
 Print Assumptions C08_inserted_expansions_routable.
+
+(* ---- Router::insert, REGENERATED from src/router.rs on this run (Gen/Shapes.v): the conflicts of ALL expansions are
+        collected, then sorted, then deduplicated, and the error returns before anything is inserted ---- *)
+From Coq Require Import String.
+From WF Require Import Gen.Shapes Proofs.ShapesP.
+Theorem C08_conflicts_collected_sorted_then_deduplicated :
+  bl_eqb gen_insert_steps
+    ["parse"; "loop"; "loop"; "return"; "unknown-constraint"; "loop"; "find"; "push"; "if-conflicts"; "sort"; "dedup";
+     "return"; "conflict"; "loop"; "insert"; "insert"; "optimize"; "ok"]%string = true.
+Proof. exact (proj1 router_steps_shape). Qed.
+Print Assumptions C08_conflicts_collected_sorted_then_deduplicated.
